@@ -277,7 +277,7 @@ def extra_entries():
     add("TypiClust(dict)", "TypiClust", {"cluster_algo_dict": {"n_init": 2}}, model=None, rows=False, cost=2)
     add("ProbCover(dict)", "ProbCover", {"cluster_algo_dict": {"n_init": 2}}, model=None, rows=False, cost=2)
     add("DropQuery(dict)", "DropQuery", {"cluster_algo_dict": {"n_init": 2}}, model="clf_embed", rows=False, cost=2)
-    add("GreedySamplingX(metric_dict)", "GreedySamplingX", {"metric": "minkowski", "metric_dict": {"p": 1}}, model=None)
+    add("GreedySamplingX(metric_dict)", "GreedySamplingX", {"metric": "euclidean", "metric_dict": {"squared": True}}, model=None)
     # further documented parameter values
     add("ValueOfInformationEER(subtract_current)", "ValueOfInformationEER", {"subtract_current": True}, model="clf",
         rows=False, cost=2)
@@ -306,7 +306,8 @@ def extra_entries():
     add("ExpectedModelOutputChange(dict)", "ExpectedModelOutputChange",
         {"integration_dict": {"method": "assume_linear"}}, model="reg_prob", cost=2)
     add("GreedySamplingTarget(dicts)", "GreedySamplingTarget",
-        {"x_metric": "minkowski", "x_metric_dict": {"p": 1}, "y_metric": "minkowski", "y_metric_dict": {"p": 1}},
+        {"x_metric": "euclidean", "x_metric_dict": {"squared": True}, "y_metric": "euclidean",
+         "y_metric_dict": {"squared": True}},
         model="reg")
     return out
 
